@@ -195,6 +195,7 @@ def check(prog, rep, tier):
     for name in ("default_fnv_1a", "bytes-decorator", "int-decorator"):
         f, ps = R[name]
         good = True
+        firsts = {}
         for p in ps:
             if p.exit[0] != "return":
                 continue
@@ -232,6 +233,12 @@ def check(prog, rep, tier):
             okshape = (len(pre) == 0 and doms == {r0}) or (len(pre) == 1 and doms == {r1})
             if inl and len(inl) != 1:
                 okshape = False
+            if not doms and not inl:
+                # a path without the loop (a short-cut for one particular depth): it must have established depth == number of values
+                okshape = any(c.truth and strip_epochs(c.atom) in (("cmp", "==", depth, C(len(pre))), ("cmp", "==", C(len(pre)), depth)) for c in p.conds)
+            if pre:
+                e0 = pre[0]
+                firsts.setdefault(canon(e0.args[0] if hasattr(e0, "kind") else e0), e0 if hasattr(e0, "kind") else None)
             if not okshape:
                 rep.bad("C18.exactly-depth", name, f"{len(pre)} value(s) before the loop, {len(inl)} per iteration of {sorted(nshow(d) for d in doms)}",
                         f"the strategy appends {len(pre)} value(s) before the loop and {len(inl)} per iteration of {sorted(nshow(d) for d in doms)}: "
@@ -262,6 +269,12 @@ def check(prog, rep, tier):
                     break
             if not good:
                 break
+        if good and len(firsts) > 1:
+            alts = sorted(nshow(x) for x in firsts)
+            rep.bad("C18.prefix-stable", name, f"element 0 is one of {alts}",
+                    f"element 0 of the result is computed differently on different paths ({' / '.join(alts)}): which one is taken depends on the requested depth, so a smaller depth "
+                    "is not a prefix of a larger one", f.where())
+            good = False
         if good:
             rep.ok("C18.exactly-depth", name)
             rep.ok("C18.prefix-stable", name)
@@ -353,6 +366,10 @@ from ..selftest import Mutant, del_stmt, insert_stmt, replace_expr, replace_stmt
 
 _H = "hashes.py"
 MUTANTS = [
+    Mutant("int decorator: depth == 1 short-cut calling func(key) without the round index", _H,
+           insert_stmt(None, "hash_with_depth_int", "if depth == 1:\n    return [func(key)]", before="res = []"), rule="C18.prefix-stable"),
+    Mutant("int decorator: depth == 1 short-cut with the same first round (same meaning)", _H,
+           insert_stmt(None, "hash_with_depth_int", "if depth == 1:\n    return [func(key, 0)]", before="res = []"), expect="silent"),
     Mutant("default_fnv_1a seeds with idx + depth", _H, replace_expr(None, "default_fnv_1a", "fnv_1a(key, idx)", "fnv_1a(key, idx + depth)"), rule="C18."),
     Mutant("fnv_1a drops the mask in the loop", _H, del_stmt(None, "fnv_1a", "hval &= UINT64_T_MAX"), rule="C18."),
     Mutant("fnv_1a multiplies before xor", _H, replace_stmt(None, "fnv_1a", "hval ^= t_str", "hval *= fnv_64_prime\nhval ^= t_str\nhval //= fnv_64_prime\nhval *= fnv_64_prime"), rule="C18.fnv"),
